@@ -539,7 +539,7 @@ func c16Child(r *Run) {
 	}
 	// goroutines must return to the baseline (the context code keeps a 250 ms timer goroutine)
 	leaked := 0
-	for tries := 0; tries < 20; tries++ {
+	for tries := 0; tries < 400; tries++ { // up to a minute on a loaded machine; returns as soon as the count is back
 		time.Sleep(150 * time.Millisecond)
 		leaked = runtime.NumGoroutine() - base
 		if leaked <= 0 {
@@ -738,8 +738,9 @@ func firstLine(s string) string {
 func c16ConfirmHang(self string, r *Run, idx int, scratch string) bool {
 	dir := filepath.Join(scratch, fmt.Sprint("confirm", idx))
 	os.MkdirAll(dir, 0o755)
-	cmd := exec.Command("timeout", "-s", "KILL", "200", self, "C16CHILD", r.Tier, fmt.Sprint(r.Seed), fmt.Sprint(idx), fmt.Sprint(idx+1), dir)
-	cmd.Env = append(os.Environ(), "VERIF_C16_BOUND=120")
+	// (alone, with ten minutes: a call that is merely slow on a loaded machine finishes, a call that loops does not)
+	cmd := exec.Command("timeout", "-s", "KILL", "700", self, "C16CHILD", r.Tier, fmt.Sprint(r.Seed), fmt.Sprint(idx), fmt.Sprint(idx+1), dir)
+	cmd.Env = append(os.Environ(), "VERIF_C16_BOUND=600")
 	err := cmd.Run()
 	return err != nil
 }
